@@ -23,6 +23,17 @@ type c04Case struct {
 	Subs     [][]string `json:"subs"`     // external extensions e0.. and their subscriptions
 	Internal bool       `json:"internal"` // one internal extension subscribed to INVOKE, registered by the runtime process
 	Invs     []c04Inv   `json:"invs"`
+	// Prelude: a first generation of processes fails one invocation before the judged ones ("rtcrash": the runtime exits
+	// after its next; "extcrash": extension e0 exits while the runtime works), so that the judged invocations run in the
+	// environment started after that reset and the first of them carries the re-initialisation inside it
+	Prelude string `json:"prelude,omitempty"`
+}
+
+func (c *c04Case) gen() int {
+	if c.Prelude != "" {
+		return 1
+	}
+	return 0
 }
 
 func subscribed(s []string) bool { return hasStr(s, "INVOKE") }
@@ -79,6 +90,22 @@ func (c *c04Case) scenario() *Scenario {
 	for k := range c.Subs {
 		sc.Actors[fmt.Sprintf("ext:e%d", k)] = []Script{{Steps: append(ext[k], Step{Op: "stall"})}}
 	}
+	if c.Prelude != "" {
+		pre := []Step{{Op: "rt.next"}, {Op: "exit", Code: 1}}
+		if c.Prelude == "extcrash" {
+			pre = []Step{{Op: "rt.next", Signal: []string{"pre.got"}}, {Op: "stall"}}
+		}
+		sc.Actors["runtime"] = append([]Script{{Steps: pre}}, sc.Actors["runtime"]...)
+		for k := range c.Subs {
+			name := fmt.Sprintf("ext:e%d", k)
+			g0 := []Step{{Op: "ext.loop", Events: c.Subs[k], OnShut: "exit0"}}
+			if c.Prelude == "extcrash" && k == 0 {
+				g0 = []Step{{Op: "ext.register", Events: c.Subs[k]}, {Op: "ext.next", Tag: "init", Async: true}, {Op: "await", Name: "pre.got", Ms: 4000}, {Op: "sleep", Ms: 20}, {Op: "exit", Code: 1}}
+			}
+			sc.Actors[name] = append([]Script{{Steps: g0}}, sc.Actors[name]...)
+		}
+		sc.Driver = append([]Step{{Op: "invoke", Tag: "pre", Payload: &kit.Blob{Len: 9, Seed: 77, Kind: "ascii"}}}, sc.Driver...)
+	}
 	return sc
 }
 
@@ -126,6 +153,16 @@ func c04Check(c c04Case) (out kit.Outcome) {
 		}
 	}
 	out.Nontrivial = (len(c.Invs) >= 2 && nSub >= 1 && nUnsub >= 1) || heldExt
+	g := c.gen()
+	if c.Prelude != "" {
+		out.Label("prelude:" + c.Prelude)
+		if nSub >= 1 {
+			out.Nontrivial = true
+		}
+		if pre := tr.invokeReturn("pre"); pre != nil && pre.Status == 200 && !strings.HasPrefix(pre.Text, "Task timed out") {
+			out.Label("prelude:did-not-fail")
+		}
+	}
 	if run.Died {
 		out.Violate("C04/host-died/"+panicKind(run.Stderr), "emulator process died: %s", panicLine(run.Stderr))
 		return out
@@ -174,7 +211,7 @@ func c04Check(c c04Case) (out kit.Outcome) {
 		for i := range tr.Events {
 			e := &tr.Events[i]
 			if isRuntimeActor(e.Actor) && e.Kind == "return" && e.Call == "rt.next" && e.Status == 200 {
-				if n == k {
+				if n == k+g { // with a prelude the first generation's runtime received one event too
 					rtEv = e
 				}
 				n++
@@ -216,7 +253,7 @@ func c04Check(c c04Case) (out kit.Outcome) {
 			return true
 		}
 		for e, s := range c.Subs {
-			if subscribed(s) && !check(fmt.Sprintf("ext:e%d#0", e)) {
+			if subscribed(s) && !check(fmt.Sprintf("ext:e%d#%d", e, g)) {
 				return out
 			}
 		}
@@ -248,7 +285,7 @@ func c04Check(c c04Case) (out kit.Outcome) {
 	}
 	// exactly one event per invocation for subscribers, none for the others
 	for e, s := range c.Subs {
-		who := fmt.Sprintf("ext:e%d#0", e)
+		who := fmt.Sprintf("ext:e%d#%d", e, g)
 		if subscribed(s) && len(recv[who]) != len(c.Invs) {
 			out.Violate("C04/event-count", "%s received %d INVOKE events for %d invocations", who, len(recv[who]), len(c.Invs))
 			return out
@@ -272,6 +309,11 @@ func c04Gen(t *rapid.T) c04Case {
 		c.Subs = append(c.Subs, rapid.SampledFrom([][]string{{"INVOKE"}, {"INVOKE", "SHUTDOWN"}, {"SHUTDOWN"}, {}}).Draw(t, fmt.Sprintf("sub%d", i)))
 	}
 	c.Internal = rapid.IntRange(0, 2).Draw(t, "internal") == 0
+	pre := []string{"", "", "rtcrash"}
+	if n > 0 {
+		pre = append(pre, "extcrash")
+	}
+	c.Prelude = rapid.SampledFrom(pre).Draw(t, "prelude")
 	k := rapid.IntRange(2, 4).Draw(t, "invocations")
 	for j := 0; j < k; j++ {
 		evs := []string{"R.resp", "R.next"}
@@ -323,6 +365,13 @@ func c04Fixed() []c04Case {
 			{Order: []string{"R.resp", "E0.next", "R.next", "I.next"}, QuietMs: 50, Trace: "Root=1-5e1b4151-000000000000000000000001;Parent=53995c3f42cd8ad8;Sampled=1"},
 			{Order: []string{"I.next", "R.resp", "R.next", "E0.next"}, QuietMs: 50}}},
 		{Invs: []c04Inv{{Order: []string{"R.resp", "R.next"}, QuietMs: 30}, {Order: []string{"R.resp", "R.next"}, QuietMs: 30}}},
+		// the judged invocations run in the environment started after a failed one
+		{Subs: [][]string{{"INVOKE"}, {"SHUTDOWN"}}, Internal: true, Prelude: "rtcrash", Invs: []c04Inv{
+			{Order: []string{"R.resp", "R.next", "I.next", "E0.next"}, QuietMs: 50},
+			{Order: []string{"E0.next", "R.resp", "I.next", "R.next"}, QuietMs: 50}}},
+		{Subs: [][]string{{"INVOKE", "SHUTDOWN"}}, Prelude: "extcrash", Invs: []c04Inv{
+			{Order: []string{"R.resp", "R.next", "E0.next"}, QuietMs: 50},
+			{Order: []string{"R.resp", "E0.next", "R.next"}, QuietMs: 50}}},
 	}
 }
 
